@@ -341,3 +341,84 @@ Example order_examples :
   /\ oanalyse (before_step 1 2) 4 (SSeq (SAlt (SSeq (SEv KCall 1) SSkip) SRet) (SLoop (SEv KCall 2) SSkip)) = []
   /\ oanalyse (never_after_step 1 2) 4 (SLoop (SSeq (SEv KCall 2) (SEv KCall 1)) SSkip) <> [].
 Proof. repeat split; vm_compute; congruence. Qed.
+
+(* ---------- the guard automaton ---------- *)
+Lemma guard_run : forall a b it, a <> b -> a <> it -> b <> it -> forall t q q',
+  orun (guard_step a b it) q t = Some q' -> (q = 0 \/ q = 1) ->
+  forall t1 t2, t = t1 ++ (KCall, b) :: t2 ->
+  (q = 1 /\ ~ In (KCall, it) t1) \/ exists u v, t1 = u ++ (KCall, a) :: v /\ ~ In (KCall, it) v.
+Proof.
+  intros a b it Hab Hai Hbi. induction t as [|e r IH]; intros q q' H Hq t1 t2 Ht.
+  - destruct t1; discriminate Ht.
+  - cbn [orun] in H. destruct (guard_step a b it q e) as [q1|] eqn:Es; [|discriminate H].
+    destruct t1 as [|x t1'].
+    + (* the call of b is the first event *)
+      injection Ht as -> _. left. split; [|intros []].
+      unfold guard_step in Es.
+      assert (Eb : is_call (KCall, b) b = true) by (apply is_call_spec; reflexivity).
+      assert (Ea : is_call (KCall, b) a = false).
+      { destruct (is_call (KCall, b) a) eqn:E; [|reflexivity]. apply is_call_spec in E. inversion E. congruence. }
+      destruct Hq as [-> | ->]; [|reflexivity].
+      cbn [N.eqb] in Es. rewrite Ea, Eb in Es. discriminate Es.
+    + injection Ht as He Hr. subst x.
+      assert (Hq1 : q1 = 0 \/ q1 = 1).
+      { unfold guard_step in Es. destruct Hq as [-> | ->]; cbn [N.eqb Pos.eqb] in Es.
+        - destruct (is_call e a); [injection Es as <-; auto|]. destruct (is_call e b); [discriminate Es|]. injection Es as <-; auto.
+        - destruct (is_call e it); injection Es as <-; auto. }
+      destruct (IH q1 q' H Hq1 t1' t2 Hr) as [[E1 Hni] | (u & v & -> & Hni)].
+      * (* state after e is 1 and no marker in t1' *)
+        subst q1. unfold guard_step in Es. destruct Hq as [-> | ->]; cbn [N.eqb Pos.eqb] in Es.
+        -- destruct (is_call e a) eqn:Ea.
+           ++ apply is_call_spec in Ea. subst e. right. exists [], t1'. split; [reflexivity | exact Hni].
+           ++ destruct (is_call e b); [discriminate Es | injection Es as Es; discriminate Es].
+        -- destruct (is_call e it) eqn:Ei; [injection Es as Es; discriminate Es|].
+           left. split; [reflexivity|]. intros [He | Hin]; [|exact (Hni Hin)].
+           subst e. assert (E : is_call (KCall, it) it = true) by (apply is_call_spec; reflexivity).
+           rewrite E in Ei. discriminate Ei.
+      * right. exists (e :: u), v. split; [reflexivity | exact Hni].
+Qed.
+
+Theorem guard_means : forall a b it, a <> b -> a <> it -> b <> it -> forall t q,
+  orun (guard_step a b it) 0 t = Some q -> guarded a b it t.
+Proof.
+  intros a b it Hab Hai Hbi t q H t1 t2 Ht.
+  destruct (guard_run a b it Hab Hai Hbi t 0 q H (or_introl eq_refl) t1 t2 Ht) as [[E _] | Hx].
+  - discriminate E.
+  - exact Hx.
+Qed.
+Print Assumptions guard_means.
+
+Theorem guard_checked : forall fuel a b it s, a <> b -> a <> it -> b <> it ->
+  oanalyse (guard_step a b it) fuel s = [] -> forall t o, exec s t o -> guarded a b it t.
+Proof.
+  intros fuel a b it s Hab Hai Hbi Hc t o Hex. destruct (oanalyse_sound _ fuel s Hc t o Hex) as [q R].
+  exact (guard_means a b it Hab Hai Hbi t q R).
+Qed.
+Print Assumptions guard_checked.
+
+Example guard_examples :
+  (* checked in every iteration: accepted; checked once before the loop only: objected to *)
+  oanalyse (guard_step 1 2 9) 4 (SLoop (SCont (SSeq (SEv KCall 9) (SSeq (SAlt (SSeq (SEv KCall 1) SSkip) SContinue) (SEv KCall 2)))) SSkip) = []
+  /\ oanalyse (guard_step 1 2 9) 4 (SSeq (SEv KCall 1) (SLoop (SCont (SSeq (SEv KCall 9) (SEv KCall 2))) SSkip)) <> []
+  /\ oanalyse (guard_step 1 2 9) 4 (SLoop (SCont (SSeq (SEv KCall 9) (SSeq (SAlt (SEv KCall 1) SSkip) (SEv KCall 2)))) SSkip) <> [].
+Proof. repeat split; vm_compute; congruence. Qed.
+
+(* ---------- a call that does not occur in the skeleton occurs in none of its traces ---------- *)
+Lemma exec_mentions : forall s t o, exec s t o -> forall l, In (KCall, l) t -> mentions l s = true.
+Proof.
+  induction 1; intros l Hin; cbn [mentions];
+    repeat match goal with
+    | H : In _ (_ ++ _) |- _ => apply in_app_or in H; destruct H
+    end;
+    try match goal with H : In _ [] |- _ => destruct H end;
+    try (apply orb_true_iff; auto; fail); auto.
+  all: try (destruct Hin as [E|[]]; injection E as -> ->; apply N.eqb_refl).
+  all: try (apply orb_true_iff; right; apply orb_true_iff; auto; fail).
+  all: match goal with IH : forall l, In _ ?t -> mentions l (SLoop _ _) = true, H : In _ ?t |- _ => exact (IH _ H) end.
+Qed.
+
+Theorem never_checked : forall b s, mentions b s = false -> forall t o, exec s t o -> ~ In (KCall, b) t.
+Proof.
+  intros b s Hm t o Hex Hin. rewrite (exec_mentions s t o Hex b Hin) in Hm. discriminate Hm.
+Qed.
+Print Assumptions never_checked.
